@@ -35,8 +35,8 @@ META = {
              "explicit-state BFS over operation histories with complete-state hashing; non-trivial: every schedule/transition (the "
              "outcome is compared bitwise with the in-order / fresh-object outcome)"),
     "exhaustive": True,
-    "bounds": {"quick": "S: 12 kernels x {K=2 unbounded, K=3 unbounded (34650 schedules) for distinct starts, K=3 bound 2 for repeated starts}; C: threads 1..16 x chunk {0,1,2,3,5,8} x K in {1,2,3,16,17,100,1000} x 3 repetitions; H: depth 4 with state merging, depth 3 without; A: depth 2 over all attribute names",
-               "thorough": "S: adds K=4 bound 2; C: 20 repetitions; H: depth 5; A: depth 3"},
+    "bounds": {"quick": "S: 12 kernels x {K=2 unbounded, K=3 unbounded (34650 schedules) for distinct and repeated starts, K=33 with at most one deviation from the default schedule}; C: threads 1..16 x chunk {0,1,2,3,5,8} x K in {1,2,3,16,17,100,1000} x 3 repetitions; H: depth 4 with state merging, depth 3 without; A: depth 2 over all attribute names",
+               "thorough": "S: adds K=4 preemption bound 2 and K=33 with two deviations; C: 20 repetitions; H: depth 5; A: depth 3"},
     "assumptions": ["each prange iteration is its own thread: a superset of every assignment of iterations to 1..16 workers and of every chunk size",
                     "the lifted model is bound to the compiled code by the conformance sweep; native thread timing itself is not controlled",
                     "CUDA: kernel source lifted the same way (one generator per CUDA thread); device arithmetic and warp scheduling are not covered",
@@ -53,9 +53,12 @@ def shards(tier, seed):
             out.append({"part": "sched", "kernel": kn, "target": target, "K": 2, "bound": None, "starts": "distinct"})
             out.append({"part": "sched", "kernel": kn, "target": target, "K": 2, "bound": None, "starts": "repeated"})
             out.append({"part": "sched", "kernel": kn, "target": target, "K": 3, "bound": None, "starts": "distinct"})
-            out.append({"part": "sched", "kernel": kn, "target": target, "K": 3, "bound": 2, "starts": "repeated"})
+            out.append({"part": "sched", "kernel": kn, "target": target, "K": 3, "bound": None, "starts": "repeated"})
+            # many segments (more than any plausible block size of a block-parallel kernel): one preemption
+            out.append({"part": "sched", "kernel": kn, "target": target, "K": 33, "bound": 1, "starts": "many"})
             if tier == "thorough":
                 out.append({"part": "sched", "kernel": kn, "target": target, "K": 4, "bound": 2, "starts": "distinct"})
+                out.append({"part": "sched", "kernel": kn, "target": target, "K": 33, "bound": 2, "starts": "many"})
     for kn in PRANGE:
         out.append({"part": "conf", "kernel": kn, "reps": 3 if tier == "quick" else 20})
     out.append({"part": "conf_analysis", "seed": seed})
@@ -96,7 +99,11 @@ def kernel_inputs(kn, K, starts_kind):
     N = 16
     x, y = records.id1(N), records.id2(N)
     w = np.ascontiguousarray(np.hanning(L + 2)[1:-1] + 0.1 * np.arange(L))
-    if starts_kind == "distinct":
+    if starts_kind == "many":
+        N = 48
+        x, y = records.id1(N), records.id2(N)
+        starts = (np.arange(K, dtype=np.int64) * 5) % (N - L + 1)
+    elif starts_kind == "distinct":
         starts = np.array([0, 7, 3, 11][:K], dtype=np.int64)
     else:
         starts = np.array([4, 4, 9, 4][:K], dtype=np.int64)
@@ -159,10 +166,11 @@ def _sched(shard):
         # iterative bounding: 0, 1, 2 preemptions completely, then the requested bound; stop at the first
         # schedule whose outcome differs (the counter-example with the fewest preemptions)
         r = None
+        cnt = "deviations" if K > 8 else "preemptions"
         for b in (0, 1, 2):
             if shard["bound"] is not None and b > shard["bound"]:
                 break
-            r = S.explore(lk, args, b, nthreads=nth, max_exec=MAX_EXEC, stop_on_diff=True)
+            r = S.explore(lk, args, b, nthreads=nth, max_exec=MAX_EXEC, stop_on_diff=True, count=cnt)
             r["bound_completed"] = b if not r["capped"] and r["outcomes"] == 1 else b - 1
             if r["outcomes"] != 1 or r["capped"]:
                 break
